@@ -14,7 +14,9 @@ RULE = ('per configuration (sampling period and its unit, default unit, toleranc
         'events = gaps from P*{1-2tol, 1-tol, 1-tol/2, 1, 1+tol/2, 1+tol, 1+2tol, 2, 15/16, 17/16} and one reset() (dyadic, so interval membership is exact), counters kept '
         'in the state key; invariant on every transition: sampling_violation_counter == number of gaps outside [P(1-tol), P(1+tol)] (computed '
         'with exact fractions) and the returned robustness == reference rho (unaffected by jitter); offline: every sequence as the time column of '
-        'evaluate() on the offline and on the combined specification, and every pair of such sequences evaluated one after the other on the same object; non-trivial = the sequence has at least one in-tolerance and one out-of-tolerance gap')
+        'evaluate() on the offline and on the combined specification, and every pair of such sequences evaluated one after the other on the same object; '
+        'switch layer: an object configured with one of 5 configurations, used, then switched to another one through spec.unit / set_sampling_period (online: after reset()) '
+        'and used again - all ordered pairs, both setter orders, the counter must follow the configuration in force; non-trivial = the sequence has at least one in-tolerance and one out-of-tolerance gap')
 ASSUMPTIONS = ['time-stamps are expressed in the default unit of the specification; periods and tolerances dyadic',
                'sequence length bounded by the tier (the counter logic has no memory beyond the previous time-stamp)']
 
@@ -142,6 +144,10 @@ def shards(tier):
     for cfg in ((1600, 'ns', 'ns'), (16, 'us', 'ns')):
         for tol in TOLS:
             out.append({'cfg': list(cfg), 'tol': [tol.numerator, tol.denominator], 'base': EPOCH_NS})
+    for c1 in SWITCH_CONFIGS:
+        for c2 in SWITCH_CONFIGS:
+            if c1 != c2:
+                out.append({'switch': [list(c1), list(c2)], 'tols': [[0, 1], [1, 8], [1, 2]]})
     return out
 
 
@@ -221,8 +227,106 @@ def offline_repeat_case(m, h1, h2, combined):
     return None
 
 
+SWITCH_CONFIGS = ((1, 's', 's'), (500, 'ms', 's'), (500, 'ms', 'ms'), (1, 's', 'ms'), (250000, 'us', 'ms'))
+
+
+def switch_steps(c1, c2):
+    """the setter calls that turn configuration c1 into c2 (only what differs; both orders when both differ)"""
+    steps = []
+    if c1[2] != c2[2]:
+        steps.append(('unit', c2[2]))
+    if c1[:2] != c2[:2]:
+        steps.append(('period', c2[:2]))
+    return [steps] if len(steps) < 2 else [steps, steps[::-1]]
+
+
+def do_switch(spec, steps, tol):
+    for what, v in steps:
+        if what == 'unit':
+            spec.unit = v
+        else:
+            spec.set_sampling_period(v[0], v[1], float(tol))
+
+
+def switch_case(c1, c2, steps, tol, h1, h2, mode, combined=False):
+    """one specification object is used under configuration c1 (time-stamps built from the gaps h1), then switched to c2 through the public
+    setters (online: after reset()) and used again (gaps h2).  P is then the period of c2 in the default unit of c2."""
+    m1, m2 = JitterModel(c1, tol), JitterModel(c2, tol)
+    text = 'out = once x'
+    f = ('once', None, F.X)
+    spec = impl.build('dt_off' if mode == 'offline' else 'dt_on', text, ['x'], unit=c1[2], period=(c1[0], c1[1], float(tol)), combined=combined)
+    runs = []
+    for m, h in ((m1, h1), (m2, h2)):
+        L = len(h)
+        ts = [float(sum(h[:i + 1], Fr(0))) for i in range(L)]
+        w = {'x': [m.value(i) for i in range(L)]}
+        if mode == 'offline':
+            kind, val = impl.outcome(impl.dt_evaluate, spec, w, ts)
+            vals = [p[1] for p in val] if kind == 'ok' else None
+        else:
+            vals = []
+            for i in range(L):
+                kind, val = impl.outcome(impl.dt_update, spec, ts[i], {'x': w['x'][i]})
+                if kind != 'ok':
+                    break
+                vals.append(val)
+        if kind != 'ok':
+            return '%s under %r raised %s' % ('evaluate()' if mode == 'offline' else 'update()', m.cfg, val)
+        if not refsem.same_list(vals, refsem.ev(f, w, L)):
+            return 'values %r differ from rho (robustness must not depend on the time-stamps)' % (vals,)
+        runs.append((m.expected_count(h), spec.sampling_violation_counter))
+        if m is m1:
+            if mode == 'online':
+                k, v = impl.outcome(spec.reset)
+                if k != 'ok':
+                    return 'reset() raised %s' % (v,)
+            k, v = impl.outcome(do_switch, spec, steps, tol)
+            if k != 'ok':
+                return 'switching the configuration %r raised %s' % (steps, v)
+    (a, _), (b, cnt) = runs
+    ok = (cnt == b) if mode == 'online' else (cnt in (a + b, b))
+    if not ok:
+        return ('object configured with %r, used, %sswitched to %r by %r and used again with time-stamps %r: sampling_violation_counter is %r; '
+                '%d gaps lie outside [P(1-tol), P(1+tol)] with P=%s (default unit of the new configuration), tol=%s%s'
+                % (c1, 'reset, ' if mode == 'online' else '', c2, steps, [float(sum(h2[:i + 1], Fr(0))) for i in range(len(h2))], cnt, b, m2.P, tol,
+                   '' if mode == 'online' else ' (%d in the first data set)' % a))
+    return None
+
+
+def run_switch(shard, tier, res, mod):
+    c1, c2 = tuple(shard['switch'][0]), tuple(shard['switch'][1])
+    depth = 3 if tier == 'quick' else 4
+    for tl in shard['tols']:
+        tol = Fr(*tl)
+        m1, m2 = JitterModel(c1, tol), JitterModel(c2, tol)
+        firsts = [(m1.P, m1.P), (m1.P, m1.P * 2, m1.P)]
+        seconds = [h for L in range(2, depth + 1) for h in itertools.product(m2.events, repeat=L)]
+        for steps in switch_steps(c1, c2):
+            for h1 in firsts:
+                for h2 in seconds:
+                    for mode, combined in (('offline', False), ('online', False)) + ((('offline', True),) if len(h2) == 2 else ()):
+                        res.evaluations += 1
+                        msg = switch_case(c1, c2, steps, tol, h1, h2, mode, combined)
+                        if msg:
+                            res.violation(mod, {'mode': 'switch', 'sub': mode, 'combined': combined, 'c1': list(c1), 'c2': list(c2), 'steps': [list(x) for x in steps],
+                                                'tol': tl, 'gaps': [[g.numerator, g.denominator] for g in h1], 'gaps2': [[g.numerator, g.denominator] for g in h2]}, msg)
+                            res.outcomes['switch: counter'] += 1
+                        else:
+                            res.outcomes['switch ok'] += 1
+                            res.flags['switch_cases'] += 1
+                            w = m2.expected_count(h2)
+                            if w and (len(h2) - 1 - w):
+                                res.nontrivial += 1
+                                res.flags['switch_nontrivial'] += 1
+                        res.digest('sw', c1, c2, steps, tl, h1, h2, mode, msg)
+    res.formulas += 1
+    res.sample({'configured': list(c1), 'switched_to': list(c2), 'by': switch_steps(c1, c2), 'tolerances': shard['tols']}, 1)
+
+
 def run_shard(shard, tier, res):
     mod = sys.modules[__name__]
+    if 'switch' in shard:
+        return run_switch(shard, tier, res, mod)
     cfg = tuple(shard['cfg'])
     tol = Fr(*shard['tol'])
     m = JitterModel(cfg, tol, shard.get('base', 0))
@@ -252,6 +356,10 @@ def run_shard(shard, tier, res):
 
 def replay(case):
     m = JitterModel(tuple(case['cfg']), Fr(*case['tol']), case.get('base', 0))
+    if case['mode'] == 'switch':
+        msg = switch_case(tuple(case['c1']), tuple(case['c2']), [tuple(x) if x[0] == 'unit' else (x[0], tuple(x[1])) for x in case['steps']], Fr(*case['tol']),
+                          tuple(Fr(*g) for g in case['gaps']), tuple(Fr(*g) for g in case['gaps2']), case['sub'], case['combined'])
+        return [msg] if msg else []
     hist = tuple(('R' if g == 'R' else Fr(*g)) for g in case['gaps'])
     if case['mode'] == 'online':
         obj = m.fresh()
@@ -281,4 +389,6 @@ def finalize(agg, outcomes, flags, tier):
     from ..runner import Broken
     if agg['nontrivial'] < 500:
         raise Broken('vacuous: only %d sequences with both in- and out-of-tolerance gaps' % agg['nontrivial'])
-    return {'configurations': len(CONFIGS) * len(TOLS)}
+    if flags.get('switch_nontrivial', 0) < 200:
+        raise Broken('vacuous: only %d non-trivial sequences on re-configured objects' % flags.get('switch_nontrivial', 0))
+    return {'configurations': len(CONFIGS) * len(TOLS), 'cases_on_reconfigured_objects': flags.get('switch_cases', 0)}
